@@ -3,6 +3,7 @@
 from __future__ import annotations
 
 import ast
+import copy
 import os
 import sys
 
@@ -110,7 +111,27 @@ def r17_2_timeout_unknown(repo: Repo, rep: Report):
     ok = len(comm) == 1 and src(kwarg(comm[0], "timeout")) == "self.timeout"
     rep.check("R17.2", ok, mp, comm[0] if comm else run, src(comm[0]) if comm else "communicate(timeout=self.timeout)", "the configured time limit must bound the wait for the solver")
     t = src(sl)
-    ok = "PopenFuture(solver_command, timeout=timeout_seconds)" in t and "timeout_seconds = t if (t := args.solver_timeout_assertion) else None" in t
+    # timeout_seconds, with single-assignment locals and `:=` targets replaced by what they are bound to
+    binds = {}
+    for n in body_walk(sl):
+        if isinstance(n, ast.Assign) and len(n.targets) == 1 and isinstance(n.targets[0], ast.Name):
+            binds.setdefault(n.targets[0].id, []).append(n.value)
+        elif isinstance(n, ast.NamedExpr):
+            binds.setdefault(n.target.id, []).append(n.value)
+
+    class _Inl(ast.NodeTransformer):
+        def visit_NamedExpr(self, node):
+            return self.visit(node.value)
+
+        def visit_Name(self, node):
+            vs = binds.get(node.id, [])
+            if isinstance(node.ctx, ast.Load) and len(vs) == 1 and node.id != "timeout_seconds":
+                return self.visit(copy.deepcopy(vs[0]))
+            return node
+
+    tvals = binds.get("timeout_seconds", [])
+    ttxt = src(_Inl().visit(copy.deepcopy(tvals[0]))) if len(tvals) == 1 else "?"
+    ok = "PopenFuture(solver_command, timeout=timeout_seconds)" in t and ttxt in ("args.solver_timeout_assertion if args.solver_timeout_assertion else None", "args.solver_timeout_assertion or None")
     rep.check("R17.2", ok, m, sl, "timeout_seconds from args.solver_timeout_assertion (0 -> None)", "assertion timeout is not the configured one")
     # the worker records TimeoutExpired as the future's exception
     ok = any(h.type is not None and "TimeoutExpired" in src(h.type) for tr in body_walk(run) if isinstance(tr, ast.Try) for h in tr.handlers) or any(h.type is not None and src(h.type) == "Exception" for tr in body_walk(run) if isinstance(tr, ast.Try) for h in tr.handlers)
